@@ -2,6 +2,7 @@ package drivers
 
 import (
 	"context"
+	crand "crypto/rand"
 	"errors"
 	"fmt"
 	"math/rand"
@@ -37,7 +38,7 @@ type RTScenario struct {
 
 // RTEvent is one external event.
 type RTEvent struct {
-	Kind   string `json:"kind"` // identify | proto | kill | revive | empty | lookup | cancel | refresh | advance | close
+	Kind   string `json:"kind"` // identify | proto | kill | revive | empty | lookup (Secs > 0: with that deadline) | cancel | refresh | advance | close
 	P      int    `json:"p"`
 	Speaks bool   `json:"speaks"`
 	Force  bool   `json:"force"`
@@ -47,20 +48,22 @@ type RTEvent struct {
 const rtProto = protocol.ID("/verifrt/kad/1.0.0")
 
 type rtEnv struct {
-	sc     *RTScenario
-	ids    []peer.ID // index = peer number (0 = self)
-	num    map[peer.ID]int
-	host   *sim.FakeHost
-	gate   *sim.Gate
-	sender *sim.GatedSender
-	d      *dht.IpfsDHT
-	tr     *sim.Trace
-	start  time.Time
-	dead   map[int]bool
-	silent map[int]bool
-	empty  map[int]bool
-	speaks map[int]bool
-	lkKey  string // key of the active user lookup ("" if none)
+	lkCtx     context.Context // the context of the latest user lookup
+	lkExpired bool            // its deadline has passed and that has been logged
+	sc        *RTScenario
+	ids       []peer.ID // index = peer number (0 = self)
+	num       map[peer.ID]int
+	host      *sim.FakeHost
+	gate      *sim.Gate
+	sender    *sim.GatedSender
+	d         *dht.IpfsDHT
+	tr        *sim.Trace
+	start     time.Time
+	dead      map[int]bool
+	silent    map[int]bool
+	empty     map[int]bool
+	speaks    map[int]bool
+	lkKey     string // key of the active user lookup ("" if none)
 }
 
 func (e *rtEnv) now() int { return int(time.Since(e.start) / time.Millisecond) }
@@ -106,6 +109,11 @@ func runRT(t *testing.T, sc *RTScenario, ch sim.Chooser) (evs []sim.Ev) {
 
 func runRTInBubble(t *testing.T, sc *RTScenario, ch sim.Chooser) []sim.Ev {
 	r := rand.New(rand.NewSource(sc.Seed))
+	// the routing-table refresh draws its random targets from crypto/rand: make that stream a function of the
+	// scenario so that a run can be repeated from its replay descriptor
+	oldReader := crand.Reader
+	crand.Reader = sim.SeededReader(sc.Seed ^ 0x5eed)
+	defer func() { crand.Reader = oldReader }()
 	e := &rtEnv{sc: sc, num: map[peer.ID]int{}, gate: &sim.Gate{}, tr: &sim.Trace{}, start: time.Now(),
 		dead: map[int]bool{}, silent: map[int]bool{}, empty: map[int]bool{}, speaks: map[int]bool{}}
 	for i := 0; i <= sc.N; i++ {
@@ -142,6 +150,11 @@ func runRTInBubble(t *testing.T, sc *RTScenario, ch sim.Chooser) []sim.Ev {
 		why := "canceled"
 		if it.Ctx != nil && errors.Is(it.Ctx.Err(), context.DeadlineExceeded) {
 			why = "deadline" // the operation's own timeout expired: the peer did not answer in time
+			// ... unless it is the caller's deadline for the whole lookup that expired: the lookup ended the
+			// request, which says nothing about the peer (same as a cancellation by the caller)
+			if e.lkCtx != nil && errors.Is(e.lkCtx.Err(), context.DeadlineExceeded) && (it.Kind == "dial" || e.class(it.Payload.(*sim.RPC)) == "lookup") {
+				why = "canceled"
+			}
 		}
 		if it.Kind == "dial" {
 			tr.AddBuf(1, it.Label, "Abort", "p", e.n(it.Payload.(peer.ID)), "kind", "dial", "cls", "", "why", why, "ts", e.now())
@@ -252,6 +265,11 @@ func runRTInBubble(t *testing.T, sc *RTScenario, ch sim.Chooser) []sim.Ev {
 			regCtx, cancel := context.WithCancel(context.Background())
 			lctx, lev := dht.RegisterForLookupEvents(regCtx)
 			opCtx, opCancel := context.WithCancel(lctx)
+			if ev.Secs > 0 {
+				// the caller gives the lookup a deadline (odd, so that it never coincides with a request's own timeout)
+				opCtx, opCancel = context.WithTimeout(lctx, time.Duration(ev.Secs)*time.Second+137*time.Millisecond)
+			}
+			e.lkCtx, e.lkExpired = opCtx, false
 			a := &lk{cancel: opCancel, done: make(chan struct{})}
 			active = a
 			tr.Add("Ext", append(kv, "lk", id)...)
@@ -322,8 +340,11 @@ func runRTInBubble(t *testing.T, sc *RTScenario, ch sim.Chooser) []sim.Ev {
 			if it.Kind != "dial" {
 				out = sim.RPCOutcome{Err: dht.ErrReadTimeout}
 			}
-			e.gate.Release(it, out)
-			tr.Add("Deliver", "p", e.n(sp), "kind", it.Kind, "cls", cls, "out", "timeout", "named", 0, "ts", e.now())
+			// (a request that gave up earlier - its own timeout, a cancellation, the lookup's deadline - has been
+			// logged as aborted; nothing is delivered to it)
+			if e.gate.Release(it, out) {
+				tr.Add("Deliver", "p", e.n(sp), "kind", it.Kind, "cls", cls, "out", "timeout", "named", 0, "ts", e.now())
+			}
 			return
 		}
 		if it.Kind == "dial" {
@@ -364,12 +385,19 @@ func runRTInBubble(t *testing.T, sc *RTScenario, ch sim.Chooser) []sim.Ev {
 	idle := 0
 	for steps := 0; steps < 20000; steps++ {
 		synctest.Wait()
+		if e.lkCtx != nil && errors.Is(e.lkCtx.Err(), context.DeadlineExceeded) && !e.lkExpired {
+			// the caller's deadline for the lookup has passed: from here on the lookup is over for the monitor,
+			// like after a cancellation (logged before the aborts it caused)
+			e.lkExpired = true
+			tr.Add("Ext", "kind", "cancel", "p", 0, "speaks", false, "why", "deadline", "ts", e.now())
+		}
 		tr.Flush()
 		if active != nil {
 			select {
 			case <-active.done:
 				active = nil
 				e.lkKey = ""
+				e.lkCtx = nil
 			default:
 			}
 		}
@@ -485,9 +513,14 @@ func genRTScenario(r *rand.Rand, small bool) *RTScenario {
 				sc.Events = append(sc.Events, RTEvent{Kind: "silence", P: p})
 			}
 		case 7, 8:
-			sc.Events = append(sc.Events, RTEvent{Kind: "lookup"})
-			if r.Intn(4) == 0 {
-				sc.Events = append(sc.Events, RTEvent{Kind: "cancel"})
+			switch r.Intn(8) {
+			case 0, 1:
+				sc.Events = append(sc.Events, RTEvent{Kind: "lookup"}, RTEvent{Kind: "cancel"})
+			case 2, 3:
+				// the caller's deadline expires while requests are outstanding
+				sc.Events = append(sc.Events, RTEvent{Kind: "lookup", Secs: 1 + r.Intn(3)}, RTEvent{Kind: "advance", Secs: 5})
+			default:
+				sc.Events = append(sc.Events, RTEvent{Kind: "lookup"})
 			}
 		case 9:
 			sc.Events = append(sc.Events, RTEvent{Kind: "refresh", Force: r.Intn(2) == 0})
